@@ -336,4 +336,27 @@ def c11_model_conformance():
     return {"ok": True, "cases": 4, "violates": False}
 
 
-CALLS = {"c11_clobber": c11_clobber, "c11_hash_name": c11_hash_name, "c11_concurrent": c11_concurrent, "c11_matrix": c11_matrix, "c11_adapters": c11_adapters, "c11_refuse": c11_refuse, "c11_sweep": c11_sweep, "c11_model_conformance": c11_model_conformance}
+
+def c11_container_name(fname="evidence#1.avro"):
+    from flow.record import RecordDescriptor, RecordReader, RecordWriter
+
+    D = RecordDescriptor("c11/rec", [("varint", "n")])
+    with tempfile.TemporaryDirectory() as td:
+        p = os.path.join(td, fname)
+        w = RecordWriter(p)
+        wcls = type(w).__name__
+        w.write(D(n=5))
+        w.close()
+        files = sorted(os.listdir(td))
+        head = open(p, "rb").read(4) if os.path.exists(p) else b""
+        try:
+            rd = RecordReader(p)
+            rcls = type(rd).__name__
+            back = [r.n for r in rd]
+        except Exception as e:
+            rcls, back = None, f"{type(e).__name__}: {e}"
+    avro = fname.endswith(".avro")
+    ok = files == [fname] and back == [5] and (not avro or (head == b"Obj\x01" and wcls == "AvroWriter" and rcls == "AvroReader"))
+    return {"violates": not ok, "detail": f"{fname}: directory {files}, leading bytes {head!r}, written by {wcls}, read by {rcls}: {back!r}"}
+
+CALLS = {"c11_container_name": c11_container_name, "c11_clobber": c11_clobber, "c11_hash_name": c11_hash_name, "c11_concurrent": c11_concurrent, "c11_matrix": c11_matrix, "c11_adapters": c11_adapters, "c11_refuse": c11_refuse, "c11_sweep": c11_sweep, "c11_model_conformance": c11_model_conformance}
